@@ -203,7 +203,7 @@ def _corpus_facts(root):
     out = os.path.join(facts.CACHE, "corpus-facts")
     shutil.rmtree(out, ignore_errors=True)
     os.makedirs(out)
-    tgt = os.path.join(facts.CACHE, "tgt-corpus")
+    tgt = facts.bounded_target(os.path.join(facts.CACHE, "tgt-corpus"))
     import glob
     for fp in glob.glob(os.path.join(tgt, "debug", ".fingerprint", "pcv-corpus*")) + glob.glob(os.path.join(tgt, "debug", ".fingerprint", "pcv_corpus*")):
         shutil.rmtree(fp, ignore_errors=True)
